@@ -99,6 +99,28 @@ def run(shard, ctx):
             attempt(ctx, "init_cdb(%02Xh)" % v, "opcode.init_cdb", ("OpcodeException",), lambda: SCSICommand.init_cdb(oc), None, {"opcode": v}, valid=not invalid)
             attempt(ctx, "TestUnitReady(%02Xh)" % v, "opcode.constructor", ("OpcodeException",), lambda: TestUnitReady(oc), None, {"opcode": v}, valid=not invalid)
         ctx.count("opcode_values", 256)
+        # one OpCode object whose value is changed between uses (OpCode.value has a public setter)
+        for v1 in (0x00, 0x28, 0x88, 0xA8, 0x12):
+            for v2 in range(256):
+                invalid = O.group_length(v2) is None
+                oc = OpCode("X", v1, {})
+                try:
+                    TestUnitReady(oc)
+                    SCSICommand.init_cdb(oc)
+                except Exception:  # noqa: BLE001
+                    pass
+                oc.value = v2
+                ctx.case(("opcode-reused", v1, v2), invalid)
+                attempt(ctx, "init_cdb(%02Xh) on an OpCode object used before with %02Xh" % (v2, v1), "opcode.reused_object.init_cdb", ("OpcodeException",),
+                        lambda: SCSICommand.init_cdb(oc), None, {"opcode": v2, "earlier_value": v1}, valid=not invalid)
+                oc2 = OpCode("X", v1, {})
+                try:
+                    TestUnitReady(oc2)
+                except Exception:  # noqa: BLE001
+                    pass
+                oc2.value = v2
+                attempt(ctx, "TestUnitReady(%02Xh) on an OpCode object used before with %02Xh" % (v2, v1), "opcode.reused_object.constructor", ("OpcodeException",),
+                        lambda: TestUnitReady(oc2), None, {"opcode": v2, "earlier_value": v1}, valid=not invalid)
         return
     if kind == "prin":
         vals = list(range(32)) + [-1, 255, 256, 1 << 16, 1 << 31, 1 << 64] + [rng.getrandbits(16) for _ in range(n)]
@@ -120,7 +142,7 @@ def run(shard, ctx):
             for i in range(n * 3):
                 a, _exp = DO.GEN[c.custom](rng, ("counts", rng.choice([1, 2]), rng.choice([1, 2]), 0))
                 kw = a["_kwargs"]
-                mut = i % 7
+                mut = i % 9
                 want = ("ValueError",)
                 if mut == 0:
                     rng.choice(kw[lk])["bogus_key_%d" % i] = 1
@@ -139,6 +161,20 @@ def run(shard, ctx):
                 elif mut == 4:
                     rng.choice(kw[lk])["lu_id_type"] = rng.choice([1, 2, 3])
                     klass = "xcopy%d.lu_id_type" % spc
+                elif mut == 7:
+                    # a key that is legitimate for another kind of segment descriptor, not for this one
+                    d = rng.choice(kw["segment_descriptor_list"])
+                    code = d["descriptor_type_code"]
+                    code = code if isinstance(code, int) else next(k for k, v in DO.SEG_NAMES.items() if code in v)
+                    if code in (0x02, 0x0D):
+                        d[rng.choice(["stream_device_transfer_length", "block_device_logical_block_address"])] = rng.choice([0, 1, 77])
+                    else:
+                        d[rng.choice(["dc", "source_block_device_logical_block_address", "destination_block_device_logical_block_address"] + (["fco"] if spc == 5 else []))] = rng.choice([0, 1])
+                    klass = "xcopy%d.segment_key_of_another_kind" % spc
+                elif mut == 8:
+                    d = rng.choice(kw[lk])
+                    d[rng.choice(["cat", "dc", "descriptor_length", "block_device_number_of_blocks", "designator_type", "code_set"])] = 1
+                    klass = "xcopy%d.cscd_key_of_another_structure" % spc
                 elif mut == 5:
                     code = rng.choice([x for x in cscd_codes if x != 0xE4])
                     rng.choice(kw[lk])["descriptor_type_code"] = code
@@ -181,7 +217,15 @@ def run(shard, ctx):
             sa = rng.choice([0, 7])
             kw = {"reservation_key": rng.getrandbits(64), "service_action_reservation_key": rng.getrandbits(64)}
             if sa == 0:
-                kw.update({"spec_i_pt": 1, "transport_ids": [t]})
+                others = []
+                for _k in range(rng.choice([0, 0, 1, 2, 3])):
+                    o = D.strip_private(D.gen_transport_id(rng, rng.choice(D.TID_KINDS), nl))
+                    if o.get("iscsi_name") and rng.random() < 0.6:
+                        o["iscsi_name"] = t["iscsi_name"]  # the same initiator listed again, consistently
+                    others.append(o)
+                pos = rng.randint(0, len(others))
+                kw.update({"spec_i_pt": 1, "transport_ids": others[:pos] + [t] + others[pos:]})
+                klass += ".in_list" if others else ""
             else:
                 kw.update({"relative_target_port_id": 1, "transport_id": t})
             a = {"service_action": sa, "scope": 0, "pr_type": 1, "_kwargs": kw}
